@@ -1,4 +1,1008 @@
-/- Helper lemmas for LC/Props/C01Range.lean. TO BE PROVED (no sorry may remain). -/
+/-
+Helper lemmas for LC/Props/C01Range.lean: a verbatim copy of a document planted between
+foreign contexts is proposed by `findPotentialMatches` with exactly its own range.
+Core Lean only.
+-/
 import LC.Model.V2Match
+import LC.Proofs.MatchWF
+import LC.Proofs.MatchOrd
+import LC.Proofs.Exact
+
+namespace LC.V2Match.ER
+open LC.V2Match
+
+/-! ### setTrue -/
+
+def stStep (a : Int) (l : Array Bool) (k : Nat) : Array Bool :=
+  if 0 ≤ a + (k : Int) then l.setIfInBounds (a + (k : Int)).toNat true else l
+
+theorem setTrue_eq (l : Array Bool) (a b : Int) :
+    setTrue l a b = (List.range (b - a).toNat).foldl (stStep a) l := rfl
+
+theorem stStep_size (a : Int) (l : Array Bool) (k : Nat) : (stStep a l k).size = l.size := by
+  unfold stStep; split <;> simp
+
+theorem stStep_mono (a : Int) (l : Array Bool) (k i : Nat) (h : l.getD i false = true) :
+    (stStep a l k).getD i false = true := by
+  unfold stStep
+  split
+  · simp only [Array.getD_eq_getD_getElem?, Array.getElem?_setIfInBounds] at h ⊢
+    split
+    · split
+      · rfl
+      · rename_i h1 h2
+        subst h1
+        rw [Array.getElem?_eq_none (by omega)] at h
+        simp at h
+    · exact h
+  · exact h
+
+theorem stStep_hit (a : Int) (l : Array Bool) (k : Nat) (h0 : 0 ≤ a + (k : Int))
+    (h1 : (a + (k : Int)).toNat < l.size) :
+    (stStep a l k).getD (a + (k : Int)).toNat false = true := by
+  unfold stStep
+  rw [if_pos h0]
+  simp [Array.getD_eq_getD_getElem?, h1]
+
+theorem stFold_spec (a : Int) (l : Array Bool) (n : Nat) :
+    ((List.range n).foldl (stStep a) l).size = l.size ∧
+    (∀ i, l.getD i false = true → ((List.range n).foldl (stStep a) l).getD i false = true) ∧
+    (∀ k, k < n → 0 ≤ a + (k : Int) → (a + (k : Int)).toNat < l.size →
+      ((List.range n).foldl (stStep a) l).getD (a + (k : Int)).toNat false = true) := by
+  induction n with
+  | zero => exact ⟨rfl, fun _ h => h, fun k hk => absurd hk (Nat.not_lt_zero _)⟩
+  | succ n ih =>
+    obtain ⟨h1, h2, h3⟩ := ih
+    rw [List.range_succ, List.foldl_append]
+    simp only [List.foldl_cons, List.foldl_nil]
+    refine ⟨by rw [stStep_size, h1], fun i hi => stStep_mono _ _ _ _ (h2 i hi), ?_⟩
+    intro k hk hk0 hk1
+    by_cases hkn : k = n
+    · subst hkn
+      exact stStep_hit _ _ _ hk0 (by rw [h1]; exact hk1)
+    · exact stStep_mono _ _ _ _ (h3 k (by omega) hk0 hk1)
+
+theorem setTrue_size (l : Array Bool) (a b : Int) : (setTrue l a b).size = l.size :=
+  (stFold_spec a l _).1
+
+theorem setTrue_mono (l : Array Bool) (a b : Int) (i : Nat) (h : l.getD i false = true) :
+    (setTrue l a b).getD i false = true :=
+  (stFold_spec a l _).2.1 i h
+
+theorem setTrue_hit (l : Array Bool) (a b : Int) (i : Nat) (h1 : a ≤ (i : Int)) (h2 : (i : Int) < b)
+    (h3 : i < l.size) : (setTrue l a b).getD i false = true := by
+  have h := (stFold_spec a l (b - a).toNat).2.2 ((i : Int) - a).toNat (by omega) (by omega)
+  have e : (a + (((i : Int) - a).toNat : Int)).toNat = i := by omega
+  rw [e] at h
+  exact h h3
+
+theorem foldl_setTrue_spec {α : Type} (f g : α → Int) (xs : List α) (l : Array Bool) :
+    (xs.foldl (fun h x => setTrue h (f x) (g x)) l).size = l.size ∧
+    (∀ i, l.getD i false = true → (xs.foldl (fun h x => setTrue h (f x) (g x)) l).getD i false = true) ∧
+    (∀ x ∈ xs, ∀ i : Nat, f x ≤ (i : Int) → (i : Int) < g x → i < l.size →
+      (xs.foldl (fun h x => setTrue h (f x) (g x)) l).getD i false = true) := by
+  induction xs generalizing l with
+  | nil => exact ⟨rfl, fun _ h => h, fun x hx => by cases hx⟩
+  | cons y ys ih =>
+    simp only [List.foldl_cons]
+    obtain ⟨h1, h2, h3⟩ := ih (setTrue l (f y) (g y))
+    refine ⟨by rw [h1, setTrue_size], fun i hi => h2 i (setTrue_mono _ _ _ _ hi), ?_⟩
+    intro x hx i hi1 hi2 hi3
+    rcases List.mem_cons.1 hx with rfl | hx
+    · exact h2 i (setTrue_hit _ _ _ _ hi1 hi2 hi3)
+    · exact h3 x hx i hi1 hi2 (by rw [setTrue_size]; exact hi3)
+
+
+/-! ### detectRuns -/
+
+def winStep (hit : Nat → Bool) (targetLength sub target : Nat) (st : Int × List Nat) (k : Nat) :
+    Int × List Nat :=
+  let i := k + 1
+  let t1 : Int := if hit (i - 1) then st.1 - 1 else st.1
+  let e := i + sub - 1
+  let t2 : Int := if e < targetLength ∧ hit e then t1 + 1 else t1
+  (t2, if t2 ≥ (target : Int) then st.2 ++ [i] else st.2)
+
+def runStep (q : Nat) (acc : List (Nat × Nat) × Nat) (o : Nat) : List (Nat × Nat) × Nat :=
+  if o ≠ 1 + acc.2 then (acc.1 ++ [(o, o + q)], o)
+  else (acc.1.dropLast ++ [((acc.1.getLast?.getD (0, 0)).1, o + q)], o)
+
+def hitsOf (matched : List MR) (targetLength : Nat) : Array Bool :=
+  matched.foldl (fun h m => setTrue h m.tgtStart m.tgtEnd) (Array.replicate targetLength false)
+
+def cnt (hit : Nat → Bool) (i n : Nat) : Nat := ((List.range n).filter (fun p => hit (i + p))).length
+
+theorem detectRuns_eq {C : Type} (N : NumEnv C) (matched : List MR) (tl sl q : Nat) :
+    detectRuns N matched tl sl q =
+      if tl = 0 then []
+      else
+        let hit : Nat → Bool := fun i => (hitsOf matched tl).getD i false
+        let sub := if tl < sl then tl else sl
+        let total0 := ((List.range sub).filter hit).length
+        match ((List.range (tl - 1)).foldl (winStep hit tl sub (N.scaleFloor sl))
+                ((total0 : Int), if total0 ≥ N.scaleFloor sl then [0] else [])).2 with
+        | [] => []
+        | o0 :: rest => (rest.foldl (runStep q) ([(o0, o0 + q)], o0)).1 := rfl
+
+theorem cnt_succ_right (hit : Nat → Bool) (i n : Nat) :
+    cnt hit i (n + 1) = cnt hit i n + (if hit (i + n) then 1 else 0) := by
+  unfold cnt
+  rw [List.range_succ, List.filter_append, List.length_append]
+  congr 1
+  by_cases h : hit (i + n) = true <;> simp [h]
+
+theorem cnt_succ_left (hit : Nat → Bool) (i n : Nat) :
+    cnt hit i (n + 1) = (if hit i then 1 else 0) + cnt hit (i + 1) n := by
+  unfold cnt
+  rw [List.range_succ_eq_map, List.filter_cons, List.filter_map]
+  have e : (fun p => hit (i + 1 + p)) = ((fun p => hit (i + p)) ∘ Nat.succ) := by
+    funext p; simp only [Function.comp]; congr 1; omega
+  rw [e, Nat.add_zero]
+  by_cases h : hit i = true
+  · rw [if_pos h, if_pos h, List.length_cons, List.length_map]; omega
+  · rw [if_neg h, if_neg h, List.length_map]; omega
+
+theorem cnt_slide (hit : Nat → Bool) (i n : Nat) :
+    (cnt hit (i + 1) n : Int) =
+      (cnt hit i n : Int) - (if hit i then 1 else 0) + (if hit (i + n) then 1 else 0) := by
+  have h1 := cnt_succ_right hit i n
+  have h2 := cnt_succ_left hit i n
+  by_cases a : hit i = true <;> by_cases b : hit (i + n) = true <;> simp [a, b] at h1 h2 ⊢ <;> omega
+
+theorem cnt_full (hit : Nat → Bool) (i n : Nat) (h : ∀ p, p < n → hit (i + p) = true) : cnt hit i n = n := by
+  unfold cnt
+  rw [List.filter_eq_self.2, List.length_range]
+  intro p hp
+  exact h p (List.mem_range.1 hp)
+
+theorem win_inv (hit : Nat → Bool) (tl sub target : Nat) (hhit : ∀ e, hit e = true → e < tl)
+    (out0 : List Nat) (h0 : cnt hit 0 sub ≥ target → 0 ∈ out0) (n : Nat) :
+    ((List.range n).foldl (winStep hit tl sub target) ((cnt hit 0 sub : Int), out0)).1 = (cnt hit n sub : Int) ∧
+    ∀ i, i ≤ n → cnt hit i sub ≥ target →
+      i ∈ ((List.range n).foldl (winStep hit tl sub target) ((cnt hit 0 sub : Int), out0)).2 := by
+  induction n with
+  | zero =>
+    refine ⟨rfl, ?_⟩
+    intro i hi hc
+    have : i = 0 := by omega
+    subst this
+    exact h0 hc
+  | succ n ih =>
+    obtain ⟨h1, h2⟩ := ih
+    rw [List.range_succ, List.foldl_append]
+    simp only [List.foldl_cons, List.foldl_nil]
+    generalize List.foldl (winStep hit tl sub target) ((cnt hit 0 sub : Int), out0) (List.range n) = st at h1 h2
+    have ht2 : (winStep hit tl sub target st n).1 = (cnt hit (n + 1) sub : Int) := by
+      rw [cnt_slide, ← h1]
+      unfold winStep
+      simp only [Nat.add_sub_cancel]
+      have e : n + 1 + sub - 1 = n + sub := by omega
+      rw [e]
+      by_cases a : hit n = true <;> by_cases b : hit (n + sub) = true
+      · have := hhit _ b; simp [a, b, this]
+      · simp [a, b]
+      · have := hhit _ b; simp [a, b, this]
+      · simp [a, b]
+    refine ⟨ht2, ?_⟩
+    intro i hi hc
+    by_cases hin : i = n + 1
+    · subst hin
+      have : (winStep hit tl sub target st n).2 =
+          if (winStep hit tl sub target st n).1 ≥ (target : Int) then st.2 ++ [n + 1] else st.2 := rfl
+      rw [this, ht2, if_pos (by omega)]
+      simp
+    · have hm := h2 i (by omega) hc
+      have : (winStep hit tl sub target st n).2 =
+          if (winStep hit tl sub target st n).1 ≥ (target : Int) then st.2 ++ [n + 1] else st.2 := rfl
+      rw [this]
+      split
+      · exact List.mem_append_left _ hm
+      · exact hm
+
+/-- `o` lies in one of the runs -/
+def Cov (runs : List (Nat × Nat)) (o : Nat) : Prop := ∃ r ∈ runs, r.1 ≤ o ∧ o < r.2
+
+def Good (q : Nat) (acc : List (Nat × Nat) × Nat) : Prop :=
+  ∃ a, acc.1.getLast? = some (a, acc.2 + q) ∧ a ≤ acc.2
+
+theorem runStep_spec (q : Nat) (hq : 0 < q) (acc : List (Nat × Nat) × Nat) (o : Nat) (hg : Good q acc) :
+    Good q (runStep q acc o) ∧ (∀ o', Cov acc.1 o' → Cov (runStep q acc o).1 o') ∧
+      Cov (runStep q acc o).1 o := by
+  obtain ⟨a, hl, ha⟩ := hg
+  unfold runStep
+  by_cases h : o ≠ 1 + acc.2
+  · rw [if_pos h]
+    refine ⟨⟨o, by simp, Nat.le_refl _⟩, ?_, ?_⟩
+    · rintro o' ⟨r, hr, h1⟩
+      exact ⟨r, List.mem_append_left _ hr, h1⟩
+    · exact ⟨(o, o + q), by simp, Nat.le_refl _, by simp only; omega⟩
+  · rw [if_neg h]
+    have ho : o = 1 + acc.2 := by omega
+    simp only [hl, Option.getD_some]
+    refine ⟨⟨a, by simp, by simp only; omega⟩, ?_, ?_⟩
+    · rintro o' ⟨r, hr, h1, h2⟩
+      have hdec : acc.1 = acc.1.dropLast ++ [(a, acc.2 + q)] := by
+        obtain ⟨ys, hys⟩ := List.getLast?_eq_some_iff.1 hl
+        rw [hys, List.dropLast_concat]
+      rw [hdec] at hr
+      rcases List.mem_append.1 hr with hr | hr
+      · exact ⟨r, List.mem_append_left _ hr, h1, h2⟩
+      · simp only [List.mem_singleton] at hr
+        subst hr
+        exact ⟨(a, o + q), by simp, h1, by simp only at h2 ⊢; omega⟩
+    · exact ⟨(a, o + q), by simp, by simp only; omega, by simp only; omega⟩
+
+theorem runFold_spec (q : Nat) (hq : 0 < q) (rest : List Nat) (acc : List (Nat × Nat) × Nat)
+    (hg : Good q acc) :
+    (∀ o', Cov acc.1 o' → Cov (rest.foldl (runStep q) acc).1 o') ∧
+      ∀ o ∈ rest, Cov (rest.foldl (runStep q) acc).1 o := by
+  induction rest generalizing acc with
+  | nil => exact ⟨fun _ h => h, fun o ho => by cases ho⟩
+  | cons x xs ih =>
+    obtain ⟨g1, g2, g3⟩ := runStep_spec q hq acc x hg
+    obtain ⟨i1, i2⟩ := ih (runStep q acc x) g1
+    simp only [List.foldl_cons]
+    refine ⟨fun o' h => i1 o' (g2 o' h), ?_⟩
+    intro o ho
+    rcases List.mem_cons.1 ho with rfl | ho
+    · exact i1 _ g3
+    · exact i2 o ho
+
+theorem hitsOf_spec (matched : List MR) (tl : Nat) :
+    (hitsOf matched tl).size = tl ∧
+    ∀ x ∈ matched, ∀ i : Nat, x.tgtStart ≤ (i : Int) → (i : Int) < x.tgtEnd → i < tl →
+      (hitsOf matched tl).getD i false = true := by
+  have := foldl_setTrue_spec (fun m : MR => m.tgtStart) (fun m => m.tgtEnd) matched (Array.replicate tl false)
+  unfold hitsOf
+  refine ⟨by simpa using this.1, ?_⟩
+  intro x hx i h1 h2 h3
+  exact this.2.2 x hx i h1 h2 (by simpa using h3)
+
+/-- a range of `sl` consecutive target positions that is matched puts its start into a run -/
+theorem detectRuns_cov {C : Type} (N : NumEnv C) (matched : List MR) (tl sl q p : Nat) (hq : 0 < q)
+    (hsl0 : 0 < sl) (hp : p + sl ≤ tl) (hsf : N.scaleFloor sl ≤ sl)
+    (x : MR) (hx : x ∈ matched) (hx1 : x.tgtStart = (p : Int)) (hx2 : x.tgtEnd = (p : Int) + (sl : Int)) :
+    Cov (detectRuns N matched tl sl q) p := by
+  rw [detectRuns_eq, if_neg (by omega)]
+  simp only []
+  have hsub : (if tl < sl then tl else sl) = sl := by rw [if_neg (by omega)]
+  rw [hsub]
+  obtain ⟨hsz, hhits⟩ := hitsOf_spec matched tl
+  generalize hhit : (fun i => (hitsOf matched tl).getD i false) = hit
+  have hlt : ∀ e, hit e = true → e < tl := by
+    intro e he
+    rw [← hhit] at he
+    simp only [Array.getD_eq_getD_getElem?] at he
+    rcases Nat.lt_or_ge e tl with h | h
+    · exact h
+    · rw [Array.getElem?_eq_none (by omega)] at he
+      simp at he
+  have hcnt0 : ((List.range sl).filter hit).length = cnt hit 0 sl := by
+    unfold cnt; simp
+  rw [hcnt0]
+  have hfull : cnt hit p sl = sl := by
+    apply cnt_full
+    intro k hk
+    rw [← hhit]
+    exact hhits x hx (p + k) (by rw [hx1]; omega) (by rw [hx2]; omega) (by omega)
+  have hw := (win_inv hit tl sl (N.scaleFloor sl) hlt
+    (if cnt hit 0 sl ≥ N.scaleFloor sl then [0] else []) (by intro h; rw [if_pos h]; simp) (tl - 1)).2 p
+    (by omega) (by omega)
+  generalize (List.foldl (winStep hit tl sl (N.scaleFloor sl))
+    ((cnt hit 0 sl : Int), if cnt hit 0 sl ≥ N.scaleFloor sl then [0] else []) (List.range (tl - 1))).2 = out at hw
+  cases out with
+  | nil => cases hw
+  | cons o0 rest =>
+    simp only []
+    have hg : Good q ([(o0, o0 + q)], o0) := ⟨o0, rfl, Nat.le_refl _⟩
+    obtain ⟨s1, s2⟩ := runFold_spec q hq rest _ hg
+    rcases List.mem_cons.1 hw with rfl | hw
+    · exact s1 _ ⟨(p, p + q), by simp, Nat.le_refl _, by simp only; omega⟩
+    · exact s2 p hw
+
+
+/-! ### the join -/
+
+def newR (qs qt t j : Nat) : MR :=
+  { srcStart := (j : Int), srcEnd := (j : Int) + qs, tgtStart := (t : Int), tgtEnd := (t : Int) + qt, claimed := 0 }
+
+def upd (qs qt t j : Nat) (cur : Option (List MR)) : List MR :=
+  match cur with
+  | some l =>
+    match l.getLast? with
+    | some last =>
+      if last.tgtEnd = (t : Int) + qt - 1 then
+        l.dropLast ++ [{ last with srcEnd := (j : Int) + qs, tgtEnd := (t : Int) + qt }]
+      else l ++ [newR qs qt t j]
+    | none => [newR qs qt t j]
+  | none => [newR qs qt t j]
+
+def jstep (lookup : Nat → List Nat) (qs qt : Nat) (om : List (Int × List MR)) (tv : Nat × Nat) :
+    List (Int × List MR) :=
+  (lookup tv.2).foldl (fun om (j : Nat) => omUpdate om ((tv.1 : Int) - (j : Int)) (upd qs qt tv.1 j)) om
+
+theorem joinRangesWith_eq (lookup : Nat → List Nat) (qs : Nat) (th : List Nat) (qt : Nat) :
+    joinRangesWith lookup qs th qt = (th.zipIdx.map (fun p => (p.2, p.1))).foldl (jstep lookup qs qt) [] := rfl
+
+theorem zipIdx_swap_eq (th : List Nat) :
+    th.zipIdx.map (fun p => (p.2, p.1)) = (List.range th.length).map (fun t => (t, th[t]?.getD 0)) := by
+  apply List.ext_getElem?
+  intro i
+  simp only [List.getElem?_map, List.getElem?_zipIdx]
+  by_cases h : i < th.length
+  · simp [List.getElem?_eq_getElem h, List.getElem?_range h]
+  · simp [h]
+
+/-- the join after the first `n` target offsets -/
+def J (lookup : Nat → List Nat) (q : Nat) (th : List Nat) (n : Nat) : List (Int × List MR) :=
+  (List.range n).foldl (fun om t => jstep lookup q q om (t, th[t]?.getD 0)) []
+
+theorem joinRangesWith_J (lookup : Nat → List Nat) (q : Nat) (th : List Nat) :
+    joinRangesWith lookup q th q = J lookup q th th.length := by
+  rw [joinRangesWith_eq, zipIdx_swap_eq, List.foldl_map]
+  rfl
+
+theorem J_succ (lookup : Nat → List Nat) (q : Nat) (th : List Nat) (n : Nat) :
+    J lookup q th (n + 1) = jstep lookup q q (J lookup q th n) (n, th[n]?.getD 0) := by
+  unfold J
+  rw [List.range_succ, List.foldl_append]
+  rfl
+
+def omGet : List (Int × List MR) → Int → Option (List MR)
+  | [], _ => none
+  | (k', v) :: rest, k => if k' = k then some v else omGet rest k
+
+theorem omGet_update_same (om : List (Int × List MR)) (k : Int) (f : Option (List MR) → List MR) :
+    omGet (omUpdate om k f) k = some (f (omGet om k)) := by
+  induction om with
+  | nil => simp [omUpdate, omGet]
+  | cons kv rest ih =>
+    obtain ⟨k', v⟩ := kv
+    unfold omUpdate
+    by_cases h : k' = k
+    · simp [h, omGet]
+    · simp [h, omGet, ih]
+
+theorem omGet_update_ne (om : List (Int × List MR)) (k k' : Int) (f : Option (List MR) → List MR)
+    (hne : k' ≠ k) : omGet (omUpdate om k f) k' = omGet om k' := by
+  induction om with
+  | nil => simp [omUpdate, omGet, Ne.symm hne]
+  | cons kv rest ih =>
+    obtain ⟨k'', v⟩ := kv
+    unfold omUpdate
+    by_cases h : k'' = k
+    · subst h
+      simp [omGet, Ne.symm hne]
+    · by_cases h2 : k'' = k'
+      · subst h2
+        simp [h, omGet]
+      · simp [h, omGet, h2, ih]
+
+theorem omGet_mem (om : List (Int × List MR)) (k : Int) (l : List MR) (h : omGet om k = some l) :
+    (k, l) ∈ om := by
+  induction om with
+  | nil => simp [omGet] at h
+  | cons kv rest ih =>
+    obtain ⟨k', v⟩ := kv
+    unfold omGet at h
+    split at h
+    · rename_i hk
+      cases h; subst hk
+      exact List.mem_cons_self
+    · exact List.mem_cons_of_mem _ (ih h)
+
+/-- in one step, the list of the diagonal `t - i` is updated exactly once, by source offset `i` -/
+theorem inner_get_notin (g : Nat → Option (List MR) → List MR) (t : Nat) (k : Int) (srcs : List Nat)
+    (hk : ∀ j ∈ srcs, (t : Int) - (j : Int) ≠ k) (om : List (Int × List MR)) :
+    omGet (srcs.foldl (fun om (j : Nat) => omUpdate om ((t : Int) - (j : Int)) (g j)) om) k = omGet om k := by
+  induction srcs generalizing om with
+  | nil => rfl
+  | cons j rest ih =>
+    simp only [List.foldl_cons]
+    rw [ih (fun j' hj' => hk j' (List.mem_cons_of_mem _ hj'))]
+    exact omGet_update_ne _ _ _ _ (Ne.symm (hk j List.mem_cons_self))
+
+theorem inner_get (g : Nat → Option (List MR) → List MR) (t i : Nat) (srcs : List Nat)
+    (hnd : srcs.Nodup) (hi : i ∈ srcs) (om : List (Int × List MR)) :
+    omGet (srcs.foldl (fun om (j : Nat) => omUpdate om ((t : Int) - (j : Int)) (g j)) om) ((t : Int) - (i : Int)) =
+      some (g i (omGet om ((t : Int) - (i : Int)))) := by
+  induction srcs generalizing om with
+  | nil => cases hi
+  | cons j rest ih =>
+    simp only [List.foldl_cons]
+    rw [List.nodup_cons] at hnd
+    by_cases hji : j = i
+    · subst hji
+      rw [inner_get_notin g t _ rest ?_, omGet_update_same]
+      intro j' hj' he
+      have : j' = j := by omega
+      subst this
+      exact hnd.1 hj'
+    · have hi' : i ∈ rest := by
+        rcases List.mem_cons.1 hi with h | h
+        · exact absurd h.symm hji
+        · exact h
+      rw [ih hnd.2 hi', omGet_update_ne]
+      omega
+
+theorem omUpdate_kinv (P : Int → MR → Prop) (k : Int) (f : Option (List MR) → List MR)
+    (hf : ∀ cur, (∀ l, cur = some l → ∀ m ∈ l, P k m) → ∀ m ∈ f cur, P k m) :
+    ∀ om : List (Int × List MR), (∀ p ∈ om, ∀ m ∈ p.2, P p.1 m) →
+      ∀ p ∈ omUpdate om k f, ∀ m ∈ p.2, P p.1 m := by
+  intro om
+  induction om with
+  | nil =>
+    intro _ p hp m hm
+    simp only [omUpdate, List.mem_singleton] at hp
+    subst hp
+    exact hf none (by intro l h; cases h) m hm
+  | cons kv rest ih =>
+    intro hom p hp m hm
+    obtain ⟨k', v⟩ := kv
+    unfold omUpdate at hp
+    split at hp
+    · rename_i hk
+      subst hk
+      rcases List.mem_cons.1 hp with rfl | hp
+      · refine hf (some v) ?_ m hm
+        intro l hl; cases hl
+        exact hom (k', v) List.mem_cons_self
+      · exact hom p (List.mem_cons_of_mem _ hp) m hm
+    · rcases List.mem_cons.1 hp with rfl | hp
+      · exact hom (k', v) List.mem_cons_self m hm
+      · exact ih (fun p hp => hom p (List.mem_cons_of_mem _ hp)) p hp m hm
+
+/-- a matched range is a diagonal segment inside the copy: source within `[0,L]`, target within
+`[P,P+L]`, same length on both sides -/
+def Seg (P L : Nat) (m : MR) : Prop :=
+  0 ≤ m.srcStart ∧ m.srcEnd ≤ (L : Int) ∧ (P : Int) ≤ m.tgtStart ∧ m.tgtStart < m.tgtEnd ∧
+    m.tgtEnd ≤ (P : Int) + (L : Int) ∧ m.tgtEnd - m.tgtStart = m.srcEnd - m.srcStart
+
+def KSeg (P L : Nat) (k : Int) (m : MR) : Prop := Seg P L m ∧ m.tgtStart - m.srcStart = k
+
+theorem upd_kseg (P L q t j : Nat) (hq : 0 < q) (hj : j + q ≤ L) (ht1 : P ≤ t) (ht2 : t + q ≤ P + L)
+    (cur : Option (List MR))
+    (hcur : ∀ l, cur = some l → ∀ m ∈ l, KSeg P L ((t : Int) - (j : Int)) m) :
+    ∀ m ∈ upd q q t j cur, KSeg P L ((t : Int) - (j : Int)) m := by
+  have hnew : KSeg P L ((t : Int) - (j : Int)) (newR q q t j) := by
+    refine ⟨⟨?_, ?_, ?_, ?_, ?_, ?_⟩, ?_⟩ <;> simp only [newR] <;> omega
+  intro m hm
+  unfold upd at hm
+  split at hm
+  · rename_i l
+    have hl := hcur l rfl
+    split at hm
+    · rename_i last hlast
+      have hlastmem : last ∈ l := List.mem_of_getLast? hlast
+      split at hm
+      · rename_i hte
+        rcases List.mem_append.1 hm with hm | hm
+        · exact hl m (List.dropLast_subset l hm)
+        · simp only [List.mem_singleton] at hm
+          subst hm
+          obtain ⟨⟨h1, h2, h3, h4, h5, h6⟩, h7⟩ := hl last hlastmem
+          refine ⟨⟨?_, ?_, ?_, ?_, ?_, ?_⟩, ?_⟩ <;> simp only <;> omega
+      · rcases List.mem_append.1 hm with hm | hm
+        · exact hl m hm
+        · simp only [List.mem_singleton] at hm
+          subst hm; exact hnew
+    · simp only [List.mem_singleton] at hm
+      subst hm; exact hnew
+  · simp only [List.mem_singleton] at hm
+    subst hm; exact hnew
+
+section
+variable (lookup : Nat → List Nat) (q : Nat) (th : List Nat) (P L : Nat)
+variable (hq : 0 < q) (hqL : q ≤ L)
+variable (H1 : ∀ t cs, th[t]? = some cs → ∀ j ∈ lookup cs, j + q ≤ L ∧ P ≤ t ∧ t + q ≤ P + L)
+variable (H2 : ∀ i, i + q ≤ L → ∃ cs, th[P + i]? = some cs ∧ i ∈ lookup cs)
+variable (H3 : ∀ cs, (lookup cs).Nodup)
+include hq H1
+
+theorem J_kseg (n : Nat) (hn : n ≤ th.length) :
+    ∀ p ∈ J lookup q th n, ∀ m ∈ p.2, KSeg P L p.1 m := by
+  induction n with
+  | zero => intro p hp; cases hp
+  | succ n ih =>
+    have ih' := ih (by omega)
+    rw [J_succ]
+    have hcs : th[n]? = some (th[n]?.getD 0) := by
+      rw [List.getElem?_eq_getElem (by omega)]; rfl
+    have hl := H1 n _ hcs
+    unfold jstep
+    simp only
+    refine WFP.foldl_inv _ (fun (om : List (Int × List MR)) => ∀ p ∈ om, ∀ m ∈ p.2, KSeg P L p.1 m) _ _ ih' ?_
+    intro om j hj hom
+    obtain ⟨a, b, c⟩ := hl j hj
+    exact omUpdate_kinv (KSeg P L) _ _ (upd_kseg P L q n j hq a b c) om hom
+
+omit hq in
+theorem jstep_nil (om : List (Int × List MR)) (t : Nat) (ht : t < th.length) (hout : ¬ (P ≤ t ∧ t + q ≤ P + L)) :
+    jstep lookup q q om (t, th[t]?.getD 0) = om := by
+  have hcs : th[t]? = some (th[t]?.getD 0) := by
+    rw [List.getElem?_eq_getElem ht]; rfl
+  have : lookup (th[t]?.getD 0) = [] := by
+    apply List.eq_nil_iff_forall_not_mem.2
+    intro j hj
+    exact hout (H1 t _ hcs j hj).2
+  unfold jstep
+  simp only [this, List.foldl_nil]
+
+omit hq in
+theorem J_before (n : Nat) (hn : n ≤ P) (hn2 : n ≤ th.length) : J lookup q th n = [] := by
+  induction n with
+  | zero => rfl
+  | succ n ih =>
+    rw [J_succ, ih (by omega) (by omega)]
+    exact jstep_nil lookup q th P L H1 [] n (by omega) (by omega)
+
+omit hq in
+theorem J_after (n : Nat) (hn2 : P + L + 1 - q + n ≤ th.length) :
+    J lookup q th (P + L + 1 - q + n) = J lookup q th (P + L + 1 - q) := by
+  induction n with
+  | zero => rfl
+  | succ n ih =>
+    rw [← Nat.add_assoc, J_succ, ih (by omega)]
+    exact jstep_nil lookup q th P L H1 _ _ (by omega) (by omega)
+
+theorem join_seg : ∀ p ∈ joinRangesWith lookup q th q, ∀ m ∈ p.2, Seg P L m := by
+  intro p hp m hm
+  rw [joinRangesWith_J] at hp
+  exact (J_kseg lookup q th P L hq H1 th.length (Nat.le_refl _) p hp m hm).1
+
+include hqL H2 H3
+
+omit hq hqL in
+theorem J_diag (i : Nat) (hi : i + q ≤ L) :
+    ∃ l last, omGet (J lookup q th (P + i + 1)) (P : Int) = some l ∧ l.getLast? = some last ∧
+      last.srcStart = 0 ∧ last.srcEnd = (i : Int) + q ∧ last.tgtStart = (P : Int) ∧
+      last.tgtEnd = (P : Int) + i + q ∧ last.claimed = 0 := by
+  induction i with
+  | zero =>
+    obtain ⟨cs, hcs, hmem⟩ := H2 0 (by omega)
+    have hlen : P < th.length := by
+      have := (List.getElem?_eq_some_iff.1 hcs).1; omega
+    rw [J_succ, J_before lookup q th P L H1 P (Nat.le_refl _) (by omega)]
+    have hcs' : th[P]?.getD 0 = cs := by
+      have : th[P]? = some cs := by simpa using hcs
+      rw [this]; rfl
+    unfold jstep
+    simp only [hcs']
+    have := inner_get (upd q q P) P 0 (lookup cs) (H3 cs) hmem []
+    simp only [Int.natCast_zero, Int.sub_zero] at this
+    rw [this]
+    refine ⟨_, newR q q P 0, rfl, ?_, ?_⟩
+    · simp [omGet, upd]
+    · simp [newR]
+  | succ i ih =>
+    obtain ⟨l, last, hget, hlast, e1, e2, e3, e4, e5⟩ := ih (by omega)
+    obtain ⟨cs, hcs, hmem⟩ := H2 (i + 1) hi
+    have hcs' : th[P + i + 1]?.getD 0 = cs := by
+      have : th[P + i + 1]? = some cs := by simpa [Nat.add_assoc] using hcs
+      rw [this]; rfl
+    rw [show P + (i + 1) + 1 = (P + i + 1) + 1 by omega, J_succ]
+    unfold jstep
+    simp only [hcs']
+    have := inner_get (upd q q (P + i + 1)) (P + i + 1) (i + 1) (lookup cs) (H3 cs) hmem
+      (J lookup q th (P + i + 1))
+    have ek : ((P + i + 1 : Nat) : Int) - ((i + 1 : Nat) : Int) = (P : Int) := by omega
+    rw [ek] at this
+    rw [this, hget]
+    have hu : upd q q (P + i + 1) (i + 1) (some l) =
+        l.dropLast ++ [{ last with srcEnd := ((i + 1 : Nat) : Int) + q, tgtEnd := ((P + i + 1 : Nat) : Int) + q }] := by
+      unfold upd
+      simp only [hlast]
+      rw [if_pos (by rw [e4]; omega)]
+    rw [hu]
+    refine ⟨_, { last with srcEnd := ((i + 1 : Nat) : Int) + q, tgtEnd := ((P + i + 1 : Nat) : Int) + q },
+      rfl, List.getLast?_concat, ?_⟩
+    refine ⟨e1, ?_, e3, ?_, e5⟩ <;> simp only <;> omega
+
+omit hq in
+/-- the planted diagonal ends up as one range covering the whole document -/
+theorem join_exact (hlen : P + L + 1 - q ≤ th.length) :
+    ∃ l, ((P : Int), l) ∈ joinRangesWith lookup q th q ∧
+      ({ srcStart := 0, srcEnd := L, tgtStart := P, tgtEnd := (P : Int) + L, claimed := 0 } : MR) ∈ l := by
+  obtain ⟨l, last, hget, hlast, e1, e2, e3, e4, e5⟩ := J_diag lookup q th P L H1 H2 H3 (L - q) (by omega)
+  refine ⟨l, ?_, ?_⟩
+  · rw [joinRangesWith_J]
+    have e : th.length = P + L + 1 - q + (th.length - (P + L + 1 - q)) := by omega
+    rw [e, J_after lookup q th P L H1 _ (by omega)]
+    have e' : P + L + 1 - q = P + (L - q) + 1 := by omega
+    rw [e']
+    exact omGet_mem _ _ _ hget
+  · have hm := List.mem_of_getLast? hlast
+    have : last = { srcStart := 0, srcEnd := L, tgtStart := P, tgtEnd := (P : Int) + L, claimed := 0 } := by
+      cases last
+      simp only at e1 e2 e3 e4 e5
+      simp only [MR.mk.injEq]
+      refine ⟨e1, ?_, e3, ?_, e5⟩ <;> omega
+    rw [← this]; exact hm
+
+end
+
+
+/-! ### sorted matched ranges: the exact range comes first -/
+
+/-- the exact range, with its claimed-token count -/
+def exactR (P L : Nat) : MR :=
+  { srcStart := 0, srcEnd := L, tgtStart := P, tgtEnd := (P : Int) + L, claimed := L }
+
+/-- `Seg` plus `claimed = length` -/
+def CSeg (P L : Nat) (m : MR) : Prop := Seg P L m ∧ m.claimed = m.tgtEnd - m.tgtStart
+
+theorem cseg_max (P L : Nat) (m : MR) (h : CSeg P L m) :
+    m.claimed ≤ (L : Int) ∧ (m.claimed = (L : Int) → m = exactR P L) := by
+  obtain ⟨⟨h1, h2, h3, h4, h5, h6⟩, h7⟩ := h
+  refine ⟨by omega, ?_⟩
+  intro hc
+  cases m
+  simp only [exactR, MR.mk.injEq] at *
+  omega
+
+theorem sorted_head (P L : Nat) (l : List MR) (hall : ∀ m ∈ l, CSeg P L m) (hE : exactR P L ∈ l) :
+    (sortBy mrLess l).head? = some (exactR P L) := by
+  have hs := Ord.sortBy_sorted mrLess Ord.mrLess_ok.irrefl Ord.mrLess_ok.trans l
+  have hmem : ∀ m, m ∈ sortBy mrLess l ↔ m ∈ l := fun m => WFP.mem_sortBy mrLess m l
+  generalize sortBy mrLess l = s at hs hmem
+  cases s with
+  | nil => exact absurd ((hmem _).2 hE) (by simp)
+  | cons h tl =>
+    rw [List.pairwise_cons] at hs
+    simp only [List.head?_cons, Option.some.injEq]
+    have hh := cseg_max P L h (hall h ((hmem h).1 List.mem_cons_self))
+    rcases List.mem_cons.1 ((hmem _).2 hE) with he | he
+    · exact he.symm
+    · have hl := hs.1 _ he
+      apply hh.2
+      unfold mrLess at hl
+      have hEc : (exactR P L).claimed = (L : Int) := rfl
+      by_cases hne : (exactR P L).claimed ≠ h.claimed
+      · rw [if_pos hne] at hl
+        have : ¬ (exactR P L).claimed > h.claimed := by simpa using hl
+        rw [hEc] at this hne
+        omega
+      · rw [hEc] at hne
+        omega
+
+/-! ### fuseRanges keeps the exact range as its first claim -/
+
+/-- the claim still spans the exact range, with at least `L` tokens claimed -/
+def HeadOK (P L : Nat) (c : Claim) : Prop :=
+  c.m.srcStart = 0 ∧ c.m.srcEnd = (L : Int) ∧ c.m.tgtStart = (P : Int) ∧ c.m.tgtEnd = (P : Int) + L ∧
+    (L : Int) ≤ c.m.claimed
+
+theorem absorb_head (P L : Nat) (em : Int) (m : MR) (hm : Seg P L m) (c : Claim) (cs : List Claim)
+    (hc : HeadOK P L c) :
+    ∃ c' cs', (absorb em m (c :: cs)).1 = c' :: cs' ∧ HeadOK P L c' := by
+  obtain ⟨a1, a2, a3, a4, a5⟩ := hc
+  obtain ⟨b1, b2, b3, b4, b5, b6⟩ := hm
+  unfold absorb
+  simp only
+  split
+  · rename_i hcond
+    have hpos : m.claimed > 0 := by
+      have := hcond.2
+      omega
+    split
+    · exact ⟨_, _, rfl, a1, a2, a3, a4, by simp only; omega⟩
+    · split
+      · rename_i h _
+        exfalso; omega
+      · split
+        · rename_i h
+          exfalso; omega
+        · exact ⟨c, _, rfl, a1, a2, a3, a4, a5⟩
+  · exact ⟨c, _, rfl, a1, a2, a3, a4, a5⟩
+
+def fstep {C : Type} (N : NumEnv C) (size : Nat) (filter : Array Bool) (targetSize : Nat) (m0 : Option MR)
+    (st : Option (List Claim)) (mi : MR × Nat) : Option (List Claim) :=
+  match st with
+  | none => none
+  | some claimed =>
+    let m := mi.1
+    let off0 := m.tgtStart - m.srcStart
+    let offOk : Option Int :=
+      if off0 < 0 then (if -off0 ≤ (N.errMargin size : Int) then some 0 else none) else some off0
+    match offOk with
+    | none => some claimed
+    | some off =>
+      if off ≥ targetSize then none
+      else if !(filter.getD off.toNat false) then some claimed
+      else
+        let r := absorb (N.errMargin size : Int) m claimed
+        if r.2 then some r.1
+        else
+          let first : Int := firstClaimed r.1 m0
+          if m.claimed * 10 > first then some (r.1 ++ [{ m := m, origin := mi.2 }]) else some r.1
+
+def filterOf (runs : List (Nat × Nat)) (targetSize : Nat) : Array Bool :=
+  runs.foldl (fun f r => setTrue f r.1 (min r.2 targetSize)) (Array.replicate targetSize false)
+
+theorem fuseRanges_eq {C : Type} (N : NumEnv C) (matched : List MR) (size : Nat) (runs : List (Nat × Nat))
+    (targetSize : Nat) :
+    fuseRanges N matched size runs targetSize =
+      (matched.zipIdx.foldl (fstep N size (filterOf runs targetSize) targetSize matched.head?) (some [])).map
+        (fun cl => sortBy mrLess (cl.map (·.m))) := rfl
+
+theorem fstep_head {C : Type} (N : NumEnv C) (size : Nat) (filter : Array Bool) (ts : Nat) (m0 : Option MR)
+    (P L : Nat) (hPL : P + L ≤ ts) (c : Claim) (cs : List Claim) (hc : HeadOK P L c) (mi : MR × Nat)
+    (hm : Seg P L mi.1) :
+    ∃ c' cs', fstep N size filter ts m0 (some (c :: cs)) mi = some (c' :: cs') ∧ HeadOK P L c' := by
+  obtain ⟨b1, b2, b3, b4, b5, b6⟩ := hm
+  unfold fstep
+  simp only []
+  split
+  · exact ⟨c, cs, rfl, hc⟩
+  · rename_i off hoff
+    have hofflt : off < (ts : Int) := by
+      split at hoff
+      · split at hoff
+        · cases hoff; omega
+        · cases hoff
+      · cases hoff; omega
+    rw [if_neg (by omega)]
+    split
+    · exact ⟨c, cs, rfl, hc⟩
+    · obtain ⟨c', cs', he, hc'⟩ := absorb_head P L (N.errMargin size) mi.1 ⟨b1, b2, b3, b4, b5, b6⟩ c cs hc
+      split
+      · exact ⟨c', cs', by rw [he], hc'⟩
+      · split
+        · exact ⟨c', cs' ++ [_], by rw [he]; rfl, hc'⟩
+        · exact ⟨c', cs', by rw [he], hc'⟩
+
+theorem fstep_first {C : Type} (N : NumEnv C) (size : Nat) (filter : Array Bool) (ts : Nat)
+    (P L : Nat) (hL : 0 < L) (hPL : P + L ≤ ts) (hf : filter.getD P false = true) :
+    fstep N size filter ts (some (exactR P L)) (some []) (exactR P L, 0) = some [{ m := exactR P L, origin := 0 }] := by
+  unfold fstep
+  simp only [exactR, Int.sub_zero]
+  rw [if_neg (by omega)]
+  simp only []
+  rw [if_neg (by omega)]
+  simp only [Int.toNat_natCast, hf, absorb, firstClaimed, List.find?_nil]
+  simp
+  omega
+
+theorem mem_zipIdx_fst' {α : Type} (l : List α) (n : Nat) (p : α × Nat) (h : p ∈ l.zipIdx n) : p.1 ∈ l := by
+  obtain ⟨x, i⟩ := p
+  rw [List.mem_zipIdx_iff_le_and_getElem?_sub] at h
+  exact List.mem_of_getElem? h.2
+
+theorem fuse_exact {C : Type} (N : NumEnv C) (size : Nat) (runs : List (Nat × Nat)) (ts : Nat)
+    (P L : Nat) (hL : 0 < L) (hPL : P + L ≤ ts) (rest : List MR)
+    (hall : ∀ m ∈ rest, Seg P L m) (hf : (filterOf runs ts).getD P false = true) :
+    ∃ fr, fuseRanges N (exactR P L :: rest) size runs ts = some fr ∧
+      fr.Pairwise (fun a b => mrLess b a = false) ∧
+      ∃ x ∈ fr, x.srcStart = 0 ∧ x.srcEnd = (L : Int) ∧ x.tgtStart = (P : Int) ∧ x.tgtEnd = (P : Int) + L ∧
+        (L : Int) ≤ x.claimed := by
+  rw [fuseRanges_eq]
+  simp only [List.zipIdx_cons, List.foldl_cons, List.head?_cons]
+  rw [fstep_first N size _ ts P L hL hPL hf]
+  have hinv : ∃ c cs, List.foldl (fstep N size (filterOf runs ts) ts (some (exactR P L)))
+      (some [{ m := exactR P L, origin := 0 }]) (rest.zipIdx (0 + 1)) = some (c :: cs) ∧ HeadOK P L c := by
+    refine WFP.foldl_inv _ (fun (st : Option (List Claim)) => ∃ c cs, st = some (c :: cs) ∧ HeadOK P L c) _ _
+      ⟨_, [], rfl, rfl, rfl, rfl, rfl, by simp [exactR]⟩ ?_
+    rintro st mi hmi ⟨c, cs, rfl, hc⟩
+    have hseg : Seg P L mi.1 := hall _ (mem_zipIdx_fst' _ _ _ hmi)
+    exact fstep_head N size _ ts _ P L hPL c cs hc mi hseg
+  obtain ⟨c, cs, he, hc⟩ := hinv
+  rw [he]
+  refine ⟨_, rfl, Ord.sortBy_sorted mrLess Ord.mrLess_ok.irrefl Ord.mrLess_ok.trans _, c.m, ?_, hc⟩
+  rw [WFP.mem_sortBy]
+  exact List.mem_map.2 ⟨c, List.mem_cons_self, rfl⟩
+
+/-! ### the final cut -/
+
+theorem takeWhile_keeps (c : Int) (l : List MR) (hs : l.Pairwise (fun a b => mrLess b a = false))
+    (x : MR) (hx : x ∈ l) (hc : c ≤ x.claimed) :
+    x ∈ l.takeWhile (fun m => !(decide (m.claimed < c))) := by
+  induction l with
+  | nil => cases hx
+  | cons y ys ih =>
+    rw [List.pairwise_cons] at hs
+    have hy : c ≤ y.claimed := by
+      rcases List.mem_cons.1 hx with rfl | hx'
+      · exact hc
+      · have hl := hs.1 x hx'
+        unfold mrLess at hl
+        by_cases hne : x.claimed ≠ y.claimed
+        · rw [if_pos hne] at hl
+          have : ¬ x.claimed > y.claimed := by simpa using hl
+          omega
+        · omega
+    rw [List.takeWhile_cons, if_pos (by simp; omega)]
+    rcases List.mem_cons.1 hx with rfl | hx'
+    · exact List.mem_cons_self
+    · exact List.mem_cons_of_mem _ (ih hs.2 hx')
+
+
+/-! ### q-gram checksums of the planted copy -/
+
+theorem mem_lookupIn_iff (sh : List Nat) (cs j : Nat) : j ∈ lookupIn sh cs ↔ sh[j]? = some cs := by
+  simp only [lookupIn, List.mem_map, List.mem_filter]
+  constructor
+  · rintro ⟨⟨x, i⟩, ⟨hm, hx⟩, rfl⟩
+    rw [List.mem_zipIdx_iff_getElem?] at hm
+    simp only [decide_eq_true_eq] at hx
+    rw [hm, hx]
+  · intro h
+    exact ⟨(cs, j), ⟨List.mem_zipIdx_iff_getElem?.2 h, by simp⟩, rfl⟩
+
+theorem lookupIn_nodup (sh : List Nat) (cs : Nat) : (lookupIn sh cs).Nodup := by
+  unfold lookupIn
+  have h1 : ((sh.zipIdx.filter (fun p => p.1 = cs)).map (·.2)).Sublist (sh.zipIdx.map (·.2)) :=
+    List.Sublist.map _ List.filter_sublist
+  have h2 : sh.zipIdx.map (·.2) = List.range' 0 sh.length := List.zipIdx_map_snd 0 sh
+  rw [h2] at h1
+  exact List.Nodup.sublist h1 List.nodup_range'
+
+theorem hashes_getElem? (crc : Text → Nat) (wordOf : Nat → Text) (q : Nat) (hq : 0 < q) (ids : List Nat)
+    (t : Nat) :
+    (hashes crc wordOf q ids)[t]? =
+      if t + q ≤ ids.length then some (crc (gram wordOf ((ids.drop t).take q))) else none := by
+  unfold hashes gram
+  rw [if_neg (by omega)]
+  simp only [List.getElem?_map]
+  by_cases h : t + q ≤ ids.length
+  · rw [List.getElem?_range (by omega), if_pos h]; rfl
+  · rw [List.getElem?_eq_none (by simp only [List.length_range]; omega), if_neg h]; rfl
+
+theorem win_length (ids : List Nat) (t q : Nat) (h : t + q ≤ ids.length) : ((ids.drop t).take q).length = q := by
+  rw [List.length_take, List.length_drop]; omega
+
+theorem win_sub (ids : List Nat) (t q x : Nat) (h : x ∈ (ids.drop t).take q) : x ∈ ids :=
+  List.mem_of_mem_drop (List.mem_of_mem_take h)
+
+theorem win_get (ids : List Nat) (t q k x : Nat) (hk : k < q) (hx : ids[t + k]? = some x) :
+    x ∈ (ids.drop t).take q := by
+  apply List.mem_of_getElem? (i := k)
+  rw [List.getElem?_take, if_pos hk, List.getElem?_drop]
+  exact hx
+
+section
+variable (crc : Text → Nat) (wordOf : Nat → Text) (q : Nat) (pre D post : List Nat)
+variable (hq : 0 < q) (hinj : HashInj crc wordOf q) (hoov : ∀ x, x ∈ pre ++ post → x ∉ D)
+include hq hinj hoov
+
+/-- a q-gram of the target that has the checksum of a q-gram of `D` lies inside the copy -/
+theorem planted_H1 (t cs : Nat) (ht : (hashes crc wordOf q (pre ++ D ++ post))[t]? = some cs)
+    (j : Nat) (hj : j ∈ lookupIn (hashes crc wordOf q D) cs) :
+    j + q ≤ D.length ∧ pre.length ≤ t ∧ t + q ≤ pre.length + D.length := by
+  rw [mem_lookupIn_iff, hashes_getElem? crc wordOf q hq] at hj
+  rw [hashes_getElem? crc wordOf q hq] at ht
+  split at hj
+  · rename_i hjq
+    split at ht
+    · rename_i htq
+      simp only [List.length_append] at htq
+      have he : crc (gram wordOf (((pre ++ D ++ post).drop t).take q)) =
+          crc (gram wordOf ((D.drop j).take q)) := by
+        rw [Option.some.inj ht, Option.some.inj hj]
+      have hw := hinj _ _ (win_length _ t q (by simp only [List.length_append]; omega))
+        (win_length D j q hjq) he
+      have hsub : ∀ x, x ∈ ((pre ++ D ++ post).drop t).take q → x ∈ D := by
+        intro x hx; rw [hw] at hx; exact win_sub D j q x hx
+      refine ⟨hjq, ?_, ?_⟩
+      · rcases Nat.lt_or_ge t pre.length with hlt | hge
+        · exfalso
+          have h1 : (pre ++ D ++ post)[t + 0]? = some (pre[t]'hlt) := by
+            rw [Nat.add_zero, List.append_assoc, List.getElem?_append_left hlt, List.getElem?_eq_getElem hlt]
+          have h2 := hsub _ (win_get _ t q 0 _ hq h1)
+          exact hoov _ (List.mem_append_left _ (List.getElem_mem hlt)) h2
+        · exact hge
+      · rcases Nat.lt_or_ge (pre.length + D.length) (t + q) with hlt | hge
+        · exfalso
+          have hidx : t + (q - 1) - (pre ++ D).length < post.length := by
+            simp only [List.length_append]; omega
+          have h1 : (pre ++ D ++ post)[t + (q - 1)]? = some (post[t + (q - 1) - (pre ++ D).length]'hidx) := by
+            rw [List.getElem?_append_right (by simp only [List.length_append]; omega),
+              List.getElem?_eq_getElem hidx]
+          have h2 := hsub _ (win_get _ t q (q - 1) _ (by omega) h1)
+          exact hoov _ (List.mem_append_right _ (List.getElem_mem hidx)) h2
+        · exact hge
+    · cases ht
+  · cases hj
+
+omit hinj hoov in
+theorem planted_H2 (i : Nat) (hi : i + q ≤ D.length) :
+    ∃ cs, (hashes crc wordOf q (pre ++ D ++ post))[pre.length + i]? = some cs ∧
+      i ∈ lookupIn (hashes crc wordOf q D) cs := by
+  have h := hashes_contains' crc wordOf q hq pre D post i hi
+  have h2 := hashes_getElem? crc wordOf q hq D i
+  rw [if_pos hi] at h2
+  refine ⟨_, h.trans h2, ?_⟩
+  rw [mem_lookupIn_iff]
+  exact h2
+
+end
+
+/-! ### the whole search-set stage -/
+
+theorem filterOf_hit (runs : List (Nat × Nat)) (ts p : Nat) (hp : p < ts) (hc : Cov runs p) :
+    (filterOf runs ts).getD p false = true := by
+  obtain ⟨r, hr, h1, h2⟩ := hc
+  unfold filterOf
+  have := (foldl_setTrue_spec (fun r : Nat × Nat => (r.1 : Int)) (fun r => min (r.2 : Int) (ts : Int)) runs
+    (Array.replicate ts false)).2.2 r hr p (by show (r.1 : Int) ≤ (p : Int); omega) (by show (p : Int) < min (r.2 : Int) (ts : Int); omega) (by simpa using hp)
+  exact this
+
+theorem pipeline {C : Type} (N : NumEnv C) (lookup : Nat → List Nat) (q : Nat) (th : List Nat) (P L TL : Nat)
+    (hsf : N.scaleFloor L ≤ L) (hq : 0 < q) (hqL : q ≤ L) (hPL : P + L ≤ TL)
+    (hlen : P + L + 1 - q ≤ th.length)
+    (H1 : ∀ t cs, th[t]? = some cs → ∀ j ∈ lookup cs, j + q ≤ L ∧ P ≤ t ∧ t + q ≤ P + L)
+    (H2 : ∀ i, i + q ≤ L → ∃ cs, th[P + i]? = some cs ∧ i ∈ lookup cs)
+    (H3 : ∀ cs, (lookup cs).Nodup) :
+    ∃ ms, findPotentialMatches N lookup q L th q TL = some ms ∧
+      ∃ m ∈ ms, m.srcStart = 0 ∧ m.srcEnd = (L : Int) ∧ m.tgtStart = (P : Int) ∧
+        m.tgtEnd = (P : Int) + (L : Int) := by
+  have hL : 0 < L := by omega
+  -- the flattened join
+  have hflat : ∀ m ∈ (joinRangesWith lookup q th q).flatMap
+      (fun p => p.2.map (fun m => { m with claimed := m.tgtEnd - m.tgtStart })), CSeg P L m := by
+    intro m hm
+    simp only [List.mem_flatMap, List.mem_map] at hm
+    obtain ⟨p, hp, m', hm', rfl⟩ := hm
+    exact ⟨join_seg lookup q th P L hq H1 p hp m' hm', rfl⟩
+  have hE : exactR P L ∈ (joinRangesWith lookup q th q).flatMap
+      (fun p => p.2.map (fun m => { m with claimed := m.tgtEnd - m.tgtStart })) := by
+    obtain ⟨l, hl, hm⟩ := join_exact lookup q th P L hqL H1 H2 H3 hlen
+    simp only [List.mem_flatMap, List.mem_map]
+    refine ⟨_, hl, _, hm, ?_⟩
+    simp only [exactR, MR.mk.injEq]
+    exact ⟨trivial, trivial, trivial, trivial, by omega⟩
+  have hhead : (targetMatchedRangesWith lookup q th q).head? = some (exactR P L) :=
+    sorted_head P L _ hflat hE
+  have hseg : ∀ m ∈ targetMatchedRangesWith lookup q th q, Seg P L m := by
+    intro m hm
+    unfold targetMatchedRangesWith at hm
+    rw [WFP.mem_sortBy] at hm
+    exact (hflat m hm).1
+  unfold findPotentialMatches
+  simp only []
+  generalize targetMatchedRangesWith lookup q th q = matched at hhead hseg
+  cases matched with
+  | nil => cases hhead
+  | cons e rest =>
+    simp only [List.head?_cons, Option.some.injEq] at hhead
+    subst hhead
+    rw [if_neg (by simp)]
+    have hcov : Cov (detectRuns N (exactR P L :: rest) TL L q) P :=
+      detectRuns_cov N _ TL L q P hq hL hPL hsf (exactR P L) List.mem_cons_self rfl rfl
+    have hne : detectRuns N (exactR P L :: rest) TL L q ≠ [] := by
+      obtain ⟨r, hr, _⟩ := hcov
+      exact List.ne_nil_of_mem hr
+    rw [if_neg hne]
+    obtain ⟨fr, hfr, hsorted, x, hx, x1, x2, x3, x4, x5⟩ := fuse_exact N L
+      (detectRuns N (exactR P L :: rest) TL L q) TL P L hL hPL rest
+      (fun m hm => hseg m (List.mem_cons_of_mem _ hm)) (filterOf_hit _ TL P (by omega) hcov)
+    rw [hfr]
+    refine ⟨_, rfl, x, ?_, x1, x2, x3, x4⟩
+    exact takeWhile_keeps _ fr hsorted x hx (by omega)
+
+end LC.V2Match.ER
+
 namespace LC.V2Match
+open ER
+
+theorem exact_range_proposed' {C : Type} (N : NumEnv C) (hsf : ∀ n, N.scaleFloor n ≤ n)
+    (crc : Text → Nat) (wordOf : Nat → Text) (pre D post : List Nat)
+    (hq : 0 < N.q) (hD : N.q ≤ D.length) (hinj : HashInj crc wordOf N.q)
+    (hoov : ∀ x, x ∈ pre ++ post → x ∉ D) :
+    ∃ ms, findPotentialMatches N (lookupIn (hashes crc wordOf (effQ N.q D.length) D)) (effQ N.q D.length) D.length
+            (hashes crc wordOf (effQ N.q (pre ++ D ++ post).length) (pre ++ D ++ post))
+            (effQ N.q (pre ++ D ++ post).length) (pre ++ D ++ post).length = some ms ∧
+      ∃ m ∈ ms, m.srcStart = 0 ∧ m.srcEnd = (D.length : Int) ∧ m.tgtStart = (pre.length : Int) ∧
+        m.tgtEnd = (pre.length : Int) + (D.length : Int) := by
+  have e1 : effQ N.q D.length = N.q := by unfold effQ; rw [if_neg (by omega)]
+  have e2 : effQ N.q (pre ++ D ++ post).length = N.q := by
+    unfold effQ; rw [if_neg (by simp only [List.length_append]; omega)]
+  rw [e1, e2]
+  refine pipeline N _ N.q _ pre.length D.length _ (hsf _) hq hD
+    (by simp only [List.length_append]; omega) ?_ ?_ ?_ ?_
+  · rw [WFP.hashes_length, if_neg (by omega)]
+    simp only [List.length_append]; omega
+  · exact planted_H1 crc wordOf N.q pre D post hq hinj hoov
+  · exact planted_H2 crc wordOf N.q pre D post hq
+  · exact lookupIn_nodup _
+
 end LC.V2Match
